@@ -250,7 +250,8 @@ def witness_cases():
                 # tail: growth below, above and inside the key range and a few removals, so that a balance factor / colour left
                 # wrong by the case under test has consequences the independent oracles of `shape` can see
                 mid = sorted(set(keys))[len(set(keys)) // 2]
-                tail = ["ins %d" % k for k in (99, 98, 97, 400, 401, 402)] + ["rem %d" % k for k in keys[:3]] + ["ins %d" % mid, "ins 96", "ins 403", "rem 98", "rem 401"]
+                hi = max(400, max(keys) + 1)
+                tail = ["ins %d" % k for k in (99, 98, 97, hi, hi + 1, hi + 2)] + ["rem %d" % k for k in keys[:3]] + ["ins %d" % mid, "ins 96", "ins %d" % (hi + 3), "rem 98", "rem %d" % (hi + 1)]
                 ops = [cur[0]] + [x for o in [sh(o) for o in cur[1:]] + tail for x in (o, "shape")]
                 cases.append(ops + ["each 0", "each %d" % (1 + i % 5), "shape", "count"] + (["clear", "shape"] if i % 2 == 0 else ["free"]))
             cur = []
